@@ -104,6 +104,18 @@ fn by_wire(kind: usize, w: u32) -> Option<(bool, bool, u32, u32)> {
         if wr.data.len() != 10 || wr.data[..6] != b[..6] {
             return None;
         }
+        // surplus payload octets after the four-octet word are ignored: the value is made of the first four
+        for extra in [&[0xffu8][..], &[0x12, 0x34, 0x56, 0x78][..], &[0, 0, 0, 0, 0xc0][..]] {
+            let mut bx = vec![0x01, (10 + extra.len()) as u8, 0, 0];
+            bx.extend_from_slice(&attr.to_be_bytes());
+            bx.extend_from_slice(&w.to_be_bytes());
+            bx.extend_from_slice(extra);
+            let mut rx = SliceReader::from(&bx[..]);
+            let vx = AVP::try_read_greedy(&mut rx);
+            if vx.len() != 1 || vx[0].as_ref().ok() != Some(&a) {
+                return None;
+            }
+        }
         // the same AVP inside a control message decoded under the strictest and the weakest options: same value
         let mut m = vec![0x13, 0x20, 0, 30, 0, 1, 0, 2, 0, 3, 0, 4, 0x01, 0x08, 0, 0, 0, 0, 0, 1];
         m.extend_from_slice(&b);
